@@ -24,6 +24,9 @@ def nontrivial(case):
     return False
 
 
+EXPECT = {}
+
+
 def run_case(run, drv, case):
     with sandbox("c05") as box:
         try:
@@ -46,6 +49,8 @@ def run_case(run, drv, case):
         for path, label in ((root, "root"), (parent, "parent")):
             try:
                 result, stream = impl.recheck(mpath, path)
+                EXPECT[id(case)] = ([f"{1 if o else 0}:{s}" for o, s in stream],
+                                    [f"{1 if o else 0}:{s}" for o, s in ref])
             except Exception as exc:
                 run.fail("impl-vs-spec", dict(case, content=label), {"raised": repr(exc)})
                 continue
@@ -112,10 +117,14 @@ def settle(run, drv, expected_by_case):
         if want is None:
             continue
         impl_stream, ref_stream = want
-        if left.split() != impl_stream:
+
+        def tot(stream):
+            pairs = [t.split(":") for t in stream]
+            return [str(sum(int(s) for o, s in pairs if o == "1")), str(sum(int(s) for _, s in pairs))]
+        if left.split() != impl_stream + tot(impl_stream):
             run.fail("impl-vs-model", case, {"correspondence": f"Impl.{kind}",
                                              "model": left.split()[:12], "impl": impl_stream[:12]})
-        if right.split() and right.split() != ref_stream:
+        if right.split() != ref_stream + tot(ref_stream):
             run.fail("spec-vs-ref", case, {"lean_spec": right.split()[:12], "ref": ref_stream[:12]})
 
 
@@ -124,8 +133,8 @@ def run(tier, seed, replay=None):
     drv = Driver()
     exp = {}
     cases = [replay["case"]] if replay else \
-        [rc.make_case(run.rng, tier, damage=False) for _ in range(70 if tier == "quick" else 700)]
+        [rc.make_case(run.rng, tier, damage=False) for _ in range(150 if tier == "quick" else 900)]
     for case in cases:
         run_case(run, drv, case)
-    settle(run, drv, exp)
+    settle(run, drv, EXPECT)
     return run.finish()
